@@ -631,14 +631,15 @@ class NodeView(object):
         tgt_dim = sum(1 for s in section if s is None)
 
         # The index of the section in the reference system
-        ref_idx = section_to_index(self.orientation.map_section(section))
+        ref_section = self.orientation.map_section(section)
+        ref_idx = section_to_index(ref_section)
 
         # The underlying node
         node = self.node.lower_nodes[tgt_dim][ref_idx]
 
         # The underlying lower-order node may not have an orientation that
         # matches the higher-order node, so we need to compose two orientations
-        ref_ori = Orientation.compute(node.obj, self.node.obj.section(*section, unwrap_points=False))
+        ref_ori = Orientation.compute(node.obj, self.node.obj.section(*ref_section, unwrap_points=False))
         my_ori = self.orientation.view_section(section)
 
         return NodeView(node, ref_ori * my_ori)
